@@ -238,7 +238,14 @@ def gen_cases(ctx):
 def bytecode_tie(ctx, runner, cases):
     """model of codegen.rs vs the decoded .pyc for the fragment programs erg accepted.
     returns (list of mismatches, statistics)"""
-    todo = [c for c in cases if c.erg.accepted and c.flags[0] == 1]
+    def unused_def(prog):
+        used = set()
+        G.walk_exprs(prog, lambda e: used.add(e.args[0]) if e.tag == G.E_VAR else None)
+        return any(s.tag == G.S_DEF and s.args[0] not in used for s in prog)
+    # programs whose behaviour already differs are decided by the behavioural verdict (failing input / known class)
+    frag = [c for c in cases if c.erg.accepted and c.flags[0] == 1 and c.erg.obs == c.model]
+    # erg removes unused definitions before code generation (optimisation, property C12): not part of this model
+    todo = [c for c in frag if not unused_def(c.prog)]
     if not todo:
         return [], {}
     p = sh([R.PY311, os.path.join(VERIF, "pylib", "dis_dump.py")] + [c.erg.pyc for c in todo], timeout=1200)
@@ -254,7 +261,8 @@ def bytecode_tie(ctx, runner, cases):
         reqs.append([1, enc_pre_consts(pc), [[0, k] for k in range(len(pn))], c.sx, POOL_OLD])
     outs = runner.model.run(reqs)
     mism = []
-    stats = {"programs": len(todo), "byte-identical": 0, "equal-after-normalisation": 0}
+    stats = {"programs": len(todo), "byte-identical": 0, "equal-after-normalisation": 0,
+             "skipped (unused definition, removed by the optimiser)": len(frag) - len(todo)}
     for c, d, (end, pc, pn), m in zip(todo, dumps, pres, outs):
         if m[0] != 0:
             mism.append((c, "the codegen model stops with %s on a program erg compiled" % m[0], None, None))
